@@ -1,5 +1,5 @@
 from engine.core import Ob
-from obligations import C08 as _c08, C10 as _c10, C11 as _c11, C12 as _c12
+from obligations import C08 as _c08, C09 as _c09, C10 as _c10, C11 as _c11, C12 as _c12
 
 CK = ('--bounds-check', '--pointer-check', '--signed-overflow-check', '--div-by-zero-check')
 ST = 'C17/static.c'
@@ -54,6 +54,8 @@ OBLIGATIONS += _sel(_c08, ('C08.O4.next', 'C08.O4.first', 'C08.O4.lookup', 'C07.
 OBLIGATIONS += _sel(_c08, ('C08.O4.next_duplicate', 'C08.O5.add_bucket', 'C06.O1.add_unique', 'C07.O2.gc_bucket'), tiers=('thorough',))
 OBLIGATIONS += _sel(_c11, ('C11.O2.lfs_pop_env', 'C11.O2.lfs_push_env', 'C11.O1.lfs_push', 'C11.O1.lfs_pop', 'C11.O1.wfs_pop', 'C11.O1.wfs_pop_all_iter'))
 OBLIGATIONS += _sel(_c12, ('C12.O1.enqueue', 'C12.O1.dequeue', 'C12.O2.dequeue_env'))
+# the resize-request retry loops that add / del run through ht_count_add / ht_count_del (solo run: every CAS loop terminates)
+OBLIGATIONS += _sel(_c09, ('C09.O6.lazy_count', 'C09.O6.lazy_grow', 'C09.O6.count_adddel'))
 OBLIGATIONS += _sel(_c10, ('C10.O1.dequeue', 'C10.O1.iter', 'C10.O1.splice', 'C10.O1.enqueue'))
 META = {
     'level': 'other',
